@@ -33,6 +33,7 @@ void dumpDraws(vio::Out & o, const RandomEngine & e, size_t A) {
 void c09_softmax(const std::string &, vio::Cursor & c, vio::Out & o) {
     c.next();                                       // exactness flag (driver only)
     const double T = c.nextDouble();
+    const std::vector<double> tsets = c.nextDoubles();   // setTemperature calls made after construction
     const std::vector<double> qv = c.nextDoubles();
     const double shift = c.nextDouble();
     const unsigned seed = (unsigned) c.nextSize();
@@ -45,6 +46,15 @@ void c09_softmax(const std::string &, vio::Cursor & c, vio::Out & o) {
     // the MDP class on a two-row table (row 0 = q, row 1 = shifted q)
     MDP::QFunction mq(2, A); mq.row(0) = q.transpose(); mq.row(1) = qs.transpose();
     MSoft mp(mq, T);
+    auto applySets = [&](auto & pol, bool print) {
+        if (print) o << (size_t) tsets.size();
+        for (double v : tsets) {
+            bool thrown = false;
+            try { pol.setTemperature(v); } catch (const std::invalid_argument &) { thrown = true; }
+            if (print) o << thrown << pol.getTemperature();
+        }
+    };
+    applySets(p, true); applySets(ps, false); applySets(mp, true);
     auto dumpV = [&](const Vector & v) { o << (size_t) v.size(); for (long i = 0; i < (long) v.size(); ++i) o << (double) v[i]; };
     dumpV(p.getPolicy());
     { std::vector<double> pr; for (size_t a = 0; a < A; ++a) pr.push_back(p.getActionProbability(a)); o.list(pr); }
